@@ -205,7 +205,28 @@ class P(Prop):
         # interleave an unrelated edit between add_blackbox and fill (any order)
         if order:
             q.add("late_in", "input", uid=True)
+        # bystander instances whose names END in the filled instance's name (`v_u`, `zu`, as add_subcircuit's prefixing makes
+        # them): filling `u` must leave their pins, wiring and registry entries alone
+        bystanders = {}
+        if self.rng.random() < 0.5:
+            for bn in self.rng.sample(["v_u", "zu", "u_u", "uu"], 2):
+                if bn in q.blackboxes or any(x.startswith(bn + ".") or x.startswith(bn + "_") for x in q.graph.nodes):
+                    continue
+                by = cg.BlackBox("by_t", ["d", "en"], ["q"])
+                qn = q.add(f"{bn}_net", "buf", uid=True, output=True)
+                o_b, _ = call(q.add_blackbox, by, bn, {"d": self.rng.choice(nets), "q": qn})
+                if o_b == "ok":
+                    bystanders[bn] = {pin: (q.type(f"{bn}.{pin}"), sorted(q.fanin(f"{bn}.{pin}")), sorted(q.fanout(f"{bn}.{pin}")))
+                                      for pin in ("d", "en", "q")}
+            case = dict(case, bystanders=sorted(bystanders))
         o, _ = call(q.fill_blackbox, "u", child)
+        for bn, pins in bystanders.items():
+            now = {pin: ((q.type(f"{bn}.{pin}"), sorted(q.fanin(f"{bn}.{pin}")), sorted(q.fanout(f"{bn}.{pin}")))
+                         if f"{bn}.{pin}" in q.graph.nodes else None) for pin in pins}
+            if bn not in q.blackboxes or now != pins:
+                self.fail("search", "fill-touches-other-instance", f"filling `u` changed the unrelated instance `{bn}`: "
+                          f"{ {k: v for k, v in now.items() if v != pins[k]} }", case)
+                return
         if o != "ok":
             clash = any(f"u_{x}" in p.graph.nodes for x in child.graph.nodes)
             if o == "ValueError" and clash:
